@@ -103,7 +103,8 @@ def run(run):
     ]
     run.rule = ("every offline source kind (in-memory frames, arrays, function maps, delayed, imported graphs, csv, parquet x2 readers, timeseries) x chains of partitionwise operations with broadcast operands x partition index sets "
                 "(single, slices, reordered, repeated): partitions[...] / get_partition / to_delayed vs the corresponding partitions of the fully computed collection; shuffles and broadcast joins with output subsets; "
-                "head(n, npartitions=k) / tail(n) vs first/last rows of the computed partitions, incl. sorted frames; non-trivial = selection of >= 2 partitions or head/tail through an operation")
+                "head(n, npartitions=k) / tail(n) vs first/last rows of the computed partitions, incl. sorted frames (c11_sorted: sort_values / set_index options x key kinds x 1..70 input partitions and uneven pieces "
+                "x selections pushed through element-wise operations vs pandas, ties free); non-trivial = selection of >= 2 partitions or head/tail through an operation")
     run.proofs("PropC11.v")
     quick = run.tier == "quick"
     tmp = tempfile.mkdtemp(prefix="c11_", dir=os.path.join(common.BUILD))
@@ -261,8 +262,28 @@ def run(run):
         fused_read_heads(run, rt, tmp)
         import select_layer
         select_layer.select_layer(run, rt, quick)
+        # head / tail of sorted frames as tree reductions over 1 .. 130 input partitions (0, 1, 2 combine levels) vs pandas
+        import c11_sorted
+        c11_sorted.sorted_family(run, rt, quick)
         run.section("selections", partition_selections=nsel, head_tail_cases=nhead, sources=[s for s, _ in srcs])
         run.sample({"source": "from_array(chunksize=6)", "chain": "d + 1", "selection": [3, 0], "head": {"n": 7, "npartitions": 2}})
     finally:
         import shutil
         shutil.rmtree(tmp, ignore_errors=True)
+
+
+def replay(path):
+    """./check C11 --replay file: re-run one case of the sorted-selection family (the other families are replayed by the check itself)."""
+    import json
+    import rt
+    case = json.load(open(path)).get("case") or {}
+    if case.get("kind") != "sorted-selection":
+        print("C11 replay: cases of kind %r are re-run by ./check C11" % case.get("kind"))
+        return 2
+    import c11_sorted
+    r = c11_sorted.check_case(case, rt.dx)
+    if r is not None and r[0] == "violation":
+        print("VIOLATION property=C11 replay=%s: %s" % (path, r[1]))
+        return 1
+    print("C11 replay ok%s" % ("" if r is None else " (%s)" % r[1]))
+    return 0
